@@ -235,13 +235,20 @@ def _fresh_nfa_state(Q: Set[State], id_generator: IdentifierGenerator) -> State:
     return q
 
 
+def _copy_nfa_delta(*deltas):
+    delta = defaultdict(lambda: set([]))
+    for delta_i in deltas:
+        for key, Q1 in delta_i.items():
+            delta[key] = set(Q1)
+    return delta
+
+
 def nfa_repetition(N: NFA, id_generator: IdentifierGenerator = IdentifierGenerator()) -> NFA:
     Sigma = N.Sigma
     q0 = _fresh_nfa_state(N.Q, id_generator)
     Q = N.Q | {q0}
     F = N.F | {q0}
-    delta = defaultdict(lambda: set([]))
-    delta.update(N.delta)
+    delta = _copy_nfa_delta(N.delta)
     for q in F:
         delta[q, N.epsilon] |= {N.q0}
     delta[q0, N.epsilon] = {N.q0}
@@ -254,9 +261,7 @@ def nfa_union(N1: NFA, N2: NFA, id_generator: IdentifierGenerator = IdentifierGe
     q0 = _fresh_nfa_state(N1.Q | N2.Q, id_generator)
     Q = N1.Q | N2.Q | {q0}
     F = N1.F | N2.F
-    delta = defaultdict(lambda: set([]))
-    delta.update(N1.delta)
-    delta.update(N2.delta)
+    delta = _copy_nfa_delta(N1.delta, N2.delta)
     delta[q0, N1.epsilon] = {N1.q0, N2.q0}
     return NFA(Q, Sigma, delta, q0, F, N1.epsilon)
 
@@ -267,9 +272,7 @@ def nfa_concatenation(N1: NFA, N2: NFA) -> NFA:
     q0 = N1.q0
     Q = N1.Q | N2.Q | {q0}
     F = N2.F
-    delta = defaultdict(lambda: set([]))
-    delta.update(N1.delta)
-    delta.update(N2.delta)
+    delta = _copy_nfa_delta(N1.delta, N2.delta)
     for q in N1.F:
         delta[q, N1.epsilon] |= {N2.q0}
     return NFA(Q, Sigma, delta, q0, F, N1.epsilon)
